@@ -55,3 +55,11 @@ Definition locate_span (k : spankind) (span : list Z) (x : Z) : locres :=
   | Some r => r
   | None => LFail                               (* AttributeError; shown unreachable in SolveAllSpanFacts.locate_span_eq *)
   end.
+
+(* ---- decidable guards on a span (used by the theorems about repeated labels and by the harness's expectations) ---- *)
+(* no label occurs twice *)
+Fixpoint nodup_b (l : list Z) : bool :=
+  match l with [] => true | x :: r => negb (existsb (Z.eqb x) r) && nodup_b r end.
+(* the label of period i is carried by period i only *)
+Definition unique_at (span : list Z) (i : nat) : bool :=
+  match nth_error span i with Some x => (count_of x span =? 1)%nat | None => false end.
